@@ -612,10 +612,69 @@ func exportTables(repo string) (string, error) {
 		})
 	}
 
+	// ---- repairs: bare status kept (app.go mapResponse), responses always set, content only with a payload type
+	bareKept, respAlways, contentGuarded := "false", "false", "false"
+	isNilCmp := func(e ast.Expr, op token.Token, chain ...string) bool {
+		be, ok := e.(*ast.BinaryExpr)
+		return ok && be.Op == op && isIdent(be.Y, "nil") && isChain(be.X, chain...)
+	}
+	if app, err := parseGo(repo, "pkg/syslwrapper/app.go"); err == nil {
+		if fd := etFindFunc(app, "AppMapper", "mapResponse"); fd != nil {
+			ast.Inspect(fd.Body, func(n ast.Node) bool {
+				is, ok := n.(*ast.IfStmt)
+				if !ok || is.Else != nil || len(is.Body.List) != 1 || !isNilCmp(is.Cond, token.EQL, "returnType") {
+					return true
+				}
+				if as, ok := is.Body.List[0].(*ast.AssignStmt); ok && len(as.Lhs) == 1 && isIdent(as.Lhs[0], "returnName") {
+					if sel, ok := as.Rhs[0].(*ast.SelectorExpr); ok && sel.Sel.Name == "Payload" {
+						bareKept = "true"
+					}
+				}
+				return true
+			})
+		} else {
+			x.unk("mapResponse not found")
+		}
+	}
+	if fd := etFindFunc(o3, "OpenAPI3Exporter", "GenerateOpenAPI3"); fd != nil {
+		ast.Inspect(fd.Body, func(n ast.Node) bool {
+			is, ok := n.(*ast.IfStmt)
+			if !ok || is.Else != nil {
+				return true
+			}
+			if isNilCmp(is.Cond, token.EQL, "operation", "Responses") && len(is.Body.List) == 1 {
+				if as, ok := is.Body.List[0].(*ast.AssignStmt); ok && isChain(as.Lhs[0], "operation", "Responses") {
+					if c, ok := as.Rhs[0].(*ast.CallExpr); ok && isChain(c.Fun, "openapi3", "NewResponses") {
+						respAlways = "true"
+					}
+				}
+			}
+			if isNilCmp(is.Cond, token.NEQ, "schemaRef") && containsNode(is.Body, func(m ast.Node) bool {
+				c, ok := m.(*ast.CallExpr)
+				return ok && isChain(c.Fun, "response", "WithContent")
+			}) {
+				contentGuarded = "true"
+			}
+			return true
+		})
+		// an unguarded WithContent elsewhere?
+		nWith := 0
+		ast.Inspect(fd.Body, func(n ast.Node) bool {
+			if c, ok := n.(*ast.CallExpr); ok && isChain(c.Fun, "response", "WithContent") {
+				nWith++
+			}
+			return true
+		})
+		if nWith != 1 {
+			x.unk("GenerateOpenAPI3: %d calls of response.WithContent", nWith)
+		}
+	}
+
 	fmt.Fprintf(&b, "Definition tables3_of_source : tables3 := {|\n  t_arms := [\n    %s];\n", strings.Join(arms, ";\n    "))
 	fmt.Fprintf(&b, "  t_params_loop := %s;\n  t_responses_loop := %s;\n  t_enum_loop := %s;\n", paramsLoop, respLoop, enumLoop)
 	fmt.Fprintf(&b, "  t_param_required_negated := %s;\n  t_body_required_negated := %s;\n", paramReq, bodyReq)
-	fmt.Fprintf(&b, "  t_param_in := [%s];\n  t_is_primitive := [%s]\n|}.\n\n", strings.Join(paramIn, "; "), strings.Join(prims, "; "))
+	fmt.Fprintf(&b, "  t_param_in := [%s];\n  t_is_primitive := [%s];\n", strings.Join(paramIn, "; "), strings.Join(prims, "; "))
+	fmt.Fprintf(&b, "  t_bare_status_kept := %s;\n  t_responses_always := %s;\n  t_content_guarded := %s\n|}.\n\n", bareKept, respAlways, contentGuarded)
 
 	// ---- Swagger 2
 	var p2, find2, comp2 []string
